@@ -44,6 +44,6 @@ for sid, prop, meta, res in sorted(results):
     caught = c.get("rc") == 1
     meta["latest_run"] = {"tier": tier, "suite": res.get("suite"), "demo_clean_rc": res.get("demo_clean_rc"),
                           "demo_mutant_rc": res.get("demo_mutant_rc"), "check_rc": c.get("rc"), "caught": caught,
-                          "lines": c.get("lines"), "wall": c.get("wall"), "error": res.get("error")}
+                          "lines": c.get("lines"), "wall": c.get("wall"), "error": res.get("error"), "dist": c.get("dist")}
     json.dump(meta, open(os.path.join(ROOT, "seeded", sid, "meta.json"), "w"), indent=1)
     print(sid, "CAUGHT" if caught else "missed", "rc=%s" % c.get("rc"), "suite=%s" % res.get("suite"), "demo=%s/%s" % (res.get("demo_clean_rc"), res.get("demo_mutant_rc")), (c.get("lines") or [""])[0][:140])
